@@ -103,10 +103,10 @@ var c12values = map[string][]any{
 	"UseClusterSize":       {false, true},
 	"AdjustmentInterval":   {time.Duration(0), 20 * time.Second, 60 * time.Second}, // default 15s
 	"Weight":               {0.2, 0.7},
-	"AgeOutValue":          {0.0, 0.25, 0.65}, // default = Weight
-	"BurstMultiple":        {0.0, 1.5, 3.0},   // default 2
-	"BurstDetectionDelay":  {0, 1, 5},         // default 3
-	"InitialSampleRate":    {0, 5, 20},        // default 10
+	"AgeOutValue":          {0.0, 0.25, 0.65},                                      // default = Weight
+	"BurstMultiple":        {0.0, 1.5, 3.0},                                        // default 2
+	"BurstDetectionDelay":  {0, 1, 5},                                              // default 3
+	"InitialSampleRate":    {0, 5, 20},                                             // default 10
 	"UpdateFrequency":      {time.Duration(0), 10 * time.Second, 20 * time.Second}, // default 1s
 	"LookbackFrequency":    {time.Duration(0), 60 * time.Second, 120 * time.Second},
 }
@@ -554,17 +554,17 @@ func (h *c12handle) requests() int64 {
 }
 
 type c12witness struct {
-	File     *c12file          `json:"rules_file"`
-	Workers  int               `json:"workers"`
+	File     *c12file           `json:"rules_file"`
+	Workers  int                `json:"workers"`
 	Ops      map[string][]c12op `json:"ops_per_worker"`
-	Phase    int               `json:"phase"`
-	Reloaded bool              `json:"reload_before_phase"`
-	A        *c12handle        `json:"a,omitempty"`
-	B        *c12handle        `json:"b,omitempty"`
-	DefA     *c12def           `json:"def_a,omitempty"`
-	DefB     *c12def           `json:"def_b,omitempty"`
-	Differ   []string          `json:"differing_fields,omitempty"`
-	Note     string            `json:"note,omitempty"`
+	Phase    int                `json:"phase"`
+	Reloaded bool               `json:"reload_before_phase"`
+	A        *c12handle         `json:"a,omitempty"`
+	B        *c12handle         `json:"b,omitempty"`
+	DefA     *c12def            `json:"def_a,omitempty"`
+	DefB     *c12def            `json:"def_b,omitempty"`
+	Differ   []string           `json:"differing_fields,omitempty"`
+	Note     string             `json:"note,omitempty"`
 }
 
 func TestVerif_C12(t *testing.T) {
